@@ -172,6 +172,45 @@ def _known_matcher():
     return match
 
 
+def reset_library_state():
+    """put athlib's module state back to the snapshot in the middle of a path (and forget the stores made under symbolic keys):
+    what is computed next is the answer of a fresh import - the reference side of a history clause"""
+    from symrun import state
+    state.get().restore()
+    E.cur().symstore.clear()
+
+
+# source of a helper for replay scripts: evaluate an expression in a forked child BEFORE anything else is called, i.e. with the
+# library state of a fresh import, without touching the state of the script's own process
+FRESH_SRC = '''
+def fresh(fn):
+    import os
+    r, w = os.pipe()
+    pid = os.fork()
+    if pid == 0:
+        try:
+            out = ('value', repr(fn()))
+        except Exception as e:
+            out = ('raises', type(e).__name__)
+        os.write(w, repr(out).encode())
+        os._exit(0)
+    os.close(w)
+    data = b''
+    while True:
+        b = os.read(r, 65536)
+        if not b:
+            break
+        data += b
+    os.waitpid(pid, 0)
+    return eval(data.decode())
+def here(fn):
+    try:
+        return ('value', repr(fn()))
+    except Exception as e:
+        return ('raises', type(e).__name__)
+'''
+
+
 class PathFail(Exception):
     """raised by a harness body to end the path with a concretely decided violation"""
 
